@@ -244,6 +244,11 @@ def case_all3(c, res):
             if prev is not None:
                 b.decref(prev)
             prev = u
+            if t % 8 == 0:
+                # collections in between: the following functions re-use the freed node numbers (a view that remembered something
+                # about a number would report it for another function)
+                b.collect_garbage()
+                d.reset()
             keys.append((t, tuple(c['order']), c['warm']))
         b.decref(prev)
         b.collect_garbage()
